@@ -12,7 +12,7 @@ desc = {
        server:   compact | break how | bookmark
        peers:    peer identity priority lifetime | unpeer identity     (a foreign operator's record in the peering object; needs 'peering')
   'peering': {'name': 'default'}            # cluster-wide peering object; operators are then NOT standalone
-  'faults': [{'client': inc|None, 'match': {'kind': 'patch', ...}, 'nth': k|None, 'actions': [[kind, {...}], ...]}]
+  'faults': [{'client': inc|None, 'match': {'kind': 'patch', ...}, 'nth': k|[k..]|None, 'window': [t1, t2]|None, 'actions': [[kind, {...}], ...]}]
   'lag': {'plural': 'kopfexamples', 'values': [0.0, 0.3], 'only_client': None}
   'restart_after_kill': {'delay': 1.0, 'max': 3} | None
   'quiet': 30.0, 'horizon': 2000.0, 'end': 'stop'|'leave'
@@ -133,6 +133,9 @@ def run_world(desc: dict[str, Any], *, scoped: bool = True, capture_logs: bool =
                 continue
             m = rule.get('match') or {}
             if any(getattr(req, k, None) != v for k, v in m.items()):
+                continue
+            win = rule.get('window')
+            if win is not None and not (win[0] <= req.t <= win[1]):
                 continue
             counters[i] = counters.get(i, 0) + 1
             nth = rule.get('nth')
